@@ -8,4 +8,5 @@ Extraction "model.ml"
   (* Bytes *) n2b b2n le64 le32 de lenN
   (* Codec *) enc size dec has_type ty_ok guards_fixed guards_pinned utf8_valid
   (* Auth *) init_state step authorize sessions_of kind_is_write kind_read_allowed kind_audited
-             doc_perm doc_allows tag_of holds_of.
+             doc_perm doc_allows tag_of holds_of
+  (* Paths *) files dirs resolve name_defect_of valid_name escapes clashes op_creates op_removes paths_of_kinds.
